@@ -6,7 +6,7 @@
    expiry).  The library oracles are tables recorded by the harness; float
    arithmetic and comparisons are Coq's primitive floats.
    CAccept: record of tie (4) (decided by the harness oracle). *)
-From V Require Export Lang.RefSem Lang.Codegen Metrics.FloatBits.
+From V Require Export Lang.RefSem Lang.Codegen Lang.Wt Metrics.FloatBits.
 Local Open Scope Z_scope.
 
 Record tables := mktables {
@@ -132,7 +132,9 @@ Definition case_ok (c : c01case) : bool :=
   match c with
   | CRef _ p file lines tb errs final =>
       let (st, outs) := ref_lines (mk_env tb) p file lines (init_rstore p) in
-      list_eqb Bool.eqb (map is_err outs) errs && obs_eqb (p_decls p) st final
+      (* every main-stream program is well typed in the sense of Lang/Wt.v (the
+         hypothesis of the compiler-correctness theorems) *)
+      wt p && list_eqb Bool.eqb (map is_err outs) errs && obs_eqb (p_decls p) st final
   | CGen _ p code strs res mets =>
       let o := codegen p in
       list_eqb instr_eqb (o_prog o) code && list_eqb bytes_eqb (o_strs o) strs
@@ -148,6 +150,8 @@ Definition explain (c : c01case) :=
   | CRef _ p file lines tb errs final => Some (ref_lines (mk_env tb) p file lines (init_rstore p))
   | _ => None
   end.
+Definition in_frag (c : c01case) : bool :=
+  match c with CRef _ p _ _ _ _ _ => wt p && in_fragment p && scoped_otherwise p | _ => false end.
 Definition explain_gen (c : c01case) :=
   match c with
   | CGen _ p code strs res mets => Some (o_prog (codegen p), code)
